@@ -597,8 +597,8 @@ class ACCLoopTrans(ParallelLoopTrans):
 
     '''
     # The types of node that must be excluded from the section of PSyIR
-    # being transformed.
-    excluded_node_types = (PSyDataNode,)
+    # being transformed. (A RETURN would branch out of the OpenACC loop.)
+    excluded_node_types = (PSyDataNode, Return)
 
     def __init__(self):
         # Whether to add the "independent" clause
